@@ -11,6 +11,11 @@ pub fn units(tier: &str, _seed: u64) -> Vec<String> {
         "U:ILU:ELECTRICIDAD;P:EL_INSITU;P:EL_COGEN;U:COGEN:GASNATURAL;U:NEPB:ELECTRICIDAD",
         // two systems drawing ambient heat, one of them for two services: every interleaving of their lines
         "1/U:CAL:EAMBIENTE;1/U:ACS:EAMBIENTE;2/U:CAL:EAMBIENTE",
+        // DHW from a biomass boiler with declared output next to gas: the renewable share of the DHW demand is part
+        // of what the evaluation reports
+        "3/~U:ACS:BIOMASA;3/~O:ACS;~U:ACS:GASNATURAL;~D:ACS",
+        // two multi-service systems with auxiliaries
+        "1/U:CAL:GASNATURAL;1/U:ACS:GASNATURAL;1/X;1/~O:CAL;1/~O:ACS;5/U:CAL:ELECTRICIDAD;5/U:REF:ELECTRICIDAD;5/X;5/~O:CAL;5/~O:REF",
     ];
     let mut v = vec![];
     for s in shapes {
@@ -30,12 +35,18 @@ pub fn units(tier: &str, _seed: u64) -> Vec<String> {
             }
             r
         };
+        // the ten-line shape with two multi-service systems: the rewritings that change the order in which systems are met
+        let rewrites: Vec<String> = if s.contains("5/X") { ["renum", "rev", "ord:rev", "ord:hash:1", "swap:4"].iter().map(|x| x.to_string()).collect() } else { rewrites };
         for r in rewrites {
             // rewritings that re-associate a three-term float sum (whole-building totals over carriers, averaged
             // export factors over sources) need a tolerance proof that no back end delivers (DESIGN.md 2.4):
             // they are explored in the thorough tier, where they are reported INCONCLUSIVE unless violated
             let hard = (s.contains("1/X") && (r == "rev" || r == "swap:5" || r == "split:1" || r == "split:0" || r == "split:3" || r == "split:4")) || (s.contains("EL_COGEN") && (r == "rev" || r == "swap:1"));
-            if hard && tier != "thorough" {
+            if hard && tier != "thorough" && !s.contains("5/X") {
+                continue;
+            }
+            if s.contains("5/X") {
+                v.push(unit(&[("shape", s), ("n", "1"), ("rw", &r), ("fs", "PEN"), ("bud", "60")]));
                 continue;
             }
             v.push(unit(&[("shape", s), ("n", "1"), ("rw", &r), ("fs", "PEN")]));
@@ -165,6 +176,16 @@ pub fn scenario(u: &Unit) -> String {
         (Ok(a), Ok(b)) => {
             rec_ep("base", &a);
             rec_ep("rw", &b);
+            if lines.iter().any(|l| l.kind == 'D' && l.a == "ACS") {
+                spec(false);
+                let (fa, fb) = (cte::fraccion_renovable_acs_nrb(&a), cte::fraccion_renovable_acs_nrb(&b));
+                spec(true);
+                match (fa, fb) {
+                    (Ok(x), Ok(y)) => ob_via("same.dhw-renewable-fraction", "same-term", x.ident(y), x.approx(y, 64.0, k(1.0))),
+                    (Err(_), Err(_)) => {}
+                    _ => ob("same.dhw-renewable-fraction.outcome", f()),
+                }
+            }
             let (la, lb) = (leaves(&a), leaves(&b));
             let names = |l: &Vec<(String, F)>| -> Vec<String> { l.iter().map(|x| x.0.clone()).collect() };
             // map entries that exist only when a value is non-zero (grid delivery by carrier, ...) may appear in one
